@@ -31,6 +31,7 @@ type HarnessCfg struct {
 	Reverse  bool     `json:"reverse_maps,omitempty"`
 	MaxSteps int      `json:"max_steps,omitempty"`
 	NoCross  bool     `json:"no_cross,omitempty"` // skip the thorough tier's re-decision by a second solver
+	selftest bool
 }
 
 type PropCfg struct {
@@ -261,7 +262,13 @@ func cmdCheck(args []string) int {
 	var results []hres
 	var problems []string
 	crossRuns, crossDisagree := 0, 0
-	for _, h := range cfg.Harnesses {
+	harnesses := cfg.Harnesses
+	if p.Harness["vpH_selftest"] != nil && *only == "" {
+		// the engine self-test runs with every check of this package; its sampled paths are
+		// compared with native runs like any other harness (a disagreement is INCONCLUSIVE)
+		harnesses = append([]HarnessCfg{{Name: "vpH_selftest", Native: true, NoCross: true, selftest: true}}, harnesses...)
+	}
+	for _, h := range harnesses {
 		if *only != "" && h.Name != *only {
 			continue
 		}
@@ -290,6 +297,9 @@ func cmdCheck(args []string) int {
 		}
 		x := &exec.Explorer{P: p, Harness: fn, NWorker: nw, Solver: solver, Timeout: to, Tier: tier, Seed: seed,
 			KFOpen: kfOpen, Reverse: h.Reverse, NCases: 2, MaxStep: h.MaxSteps, Progress: os.Getenv("VERIF_PROGRESS") != ""}
+		if h.selftest {
+			x.NCases = 4
+		}
 		budget := h.MaxSecs
 		if budget == 0 {
 			budget = 900 // quick: nothing may run away (a changed tree can blow a harness up)
@@ -535,6 +545,9 @@ func cmdCheck(args []string) int {
 		"load_s":                        loadS,
 		"exhaustive":                    len(problems) == 0,
 		"rule":                          "states = completed symbolic paths (each decided for all values by the solver); transitions = decision edges; obligations = assertion queries PC∧¬assert posed, discharged = those answered unsat",
+	}
+	if cfg.Assumptions == nil {
+		cfg.Assumptions = []string{}
 	}
 	ev := evidence{PropertyID: prop, Tier: *tierS, Seed: seed, Level: "model_checking", Coverage: cov,
 		Assumptions: cfg.Assumptions, WallS: time.Since(t0).Seconds(), Violations: nViol}
